@@ -5,7 +5,7 @@ in-package test (harness/C16/shims/felix/ipsets/zz_verif_c16_test.go, tag verif,
 test binary is built once per run with `go test -c` and run with -test.run TestVerifC16; it writes the JSON lines
 to a file.  Everything else is vlib.standard_flow (its two driver hooks are replaced for the duration of the run).
 """
-import json, os, re, subprocess
+import glob, hashlib, json, os, re, subprocess, threading
 import vlib
 
 PKG = "./felix/ipsets/"
@@ -45,8 +45,9 @@ CFG = dict(
          "set types, metadata changes, optional QueueResync, then ApplyUpdates+ApplyDeletions repeated until no reschedule) "
          "on the REAL IPSets with the package's mock ipset command; starting kernel = random mix of stale main sets (right or "
          "wrong type/parameters/members), stale temporary sets, other sets matching Felix's name pattern and foreign sets; "
-         "faults injected at random command indices (restore lines seen as failed write or as bad exit status, destroys); "
-         "streams: random, faulty (many faults), drift (somebody else changes the kernel between applies), clean-start; "
+         "faults injected at random command indices (restore lines: bad exit status only, failed write of that line, or failed "
+         "write surfacing 1-7 lines later, possibly while a later set is written; destroys); streams: random, batch (every "
+         "set dirty in one session + such a fault), faulty (many faults), drift (somebody else changes the kernel between applies), clean-start; "
          "observed: the mock kernel after EVERY command and after every apply.  non-trivial = a command failed or a swap "
          "was executed; distinct by starting kernel + history",
     trusted=["Coq 8.16.1 kernel + vm_compute",
@@ -66,14 +67,55 @@ CFG = dict(
 )
 
 
-def _build(ctx, harness_dirs=None, pkg=None, tags="verif", timeout=2400):
+def _tree_key(ctx):
+    """Identity of everything the test binary is built from: the tree's commit + its uncommitted changes + untracked
+    .go files + our shim + the go.mod/go.sum.  None if the tree is not a git work tree (then nothing is cached)."""
+    def git(*a):
+        r = subprocess.run(["git", "-C", ctx.repo] + list(a), stdout=subprocess.PIPE, stderr=subprocess.DEVNULL)
+        return r.stdout if r.returncode == 0 else None
+    head = git("rev-parse", "HEAD")
+    diff = git("diff", "HEAD", "--", "*.go", "go.mod", "go.sum")
+    others = git("ls-files", "-o", "--exclude-standard", "--", "*.go")
+    if head is None or diff is None or others is None:
+        return None
+    h = hashlib.sha1()
+    h.update(head); h.update(diff)
+    for f in sorted(others.decode().split("\n")):
+        fp = os.path.join(ctx.repo, f)
+        if f and os.path.isfile(fp):
+            h.update(f.encode()); h.update(open(fp, "rb").read())
+    for dp, dn, fn in sorted(os.walk(os.path.join(vlib.HARNESS, "C16"))):
+        for f in sorted(fn):
+            h.update(f.encode()); h.update(open(os.path.join(dp, f), "rb").read())
+    return h.hexdigest()[:16]
+
+
+def _build_real(ctx, harness_dirs=None, tags="verif", timeout=2400):
     ov = vlib.make_overlay(ctx, harness_dirs)
-    exe = os.path.join(ctx.build, "driver.test")
-    if os.path.exists(exe):
-        os.remove(exe)
-    r = subprocess.run(["timeout", str(timeout), "go", "test", "-c", "-tags", tags, "-overlay", ov, "-vet=off", "-o", exe, PKG],
+    key = _tree_key(ctx)
+    exe = os.path.join(ctx.build, "driver-%s.test" % (key or "nocache"))
+    if key and os.path.exists(exe):
+        return exe, "cached test binary %s" % exe
+    for old in glob.glob(os.path.join(ctx.build, "driver*.test")):
+        os.remove(old)
+    tmp = exe + ".tmp"
+    r = subprocess.run(["timeout", str(timeout), "go", "test", "-c", "-tags", tags, "-overlay", ov, "-vet=off", "-o", tmp, PKG],
                        cwd=ctx.repo, env=vlib.go_env(), stdout=subprocess.PIPE, stderr=subprocess.STDOUT, text=True)
-    return (exe if r.returncode == 0 and os.path.exists(exe) else None), r.stdout
+    if r.returncode == 0 and os.path.exists(tmp):
+        os.rename(tmp, exe)
+        return exe, r.stdout
+    return None, r.stdout
+
+
+_BG = {}
+
+
+def _build(ctx, harness_dirs=None, pkg=None, tags="verif", timeout=2400):
+    t = _BG.pop("thread", None)
+    if t is not None:
+        t.join()
+        return _BG.pop("result")
+    return _build_real(ctx, harness_dirs, tags, timeout)
 
 
 def _run(ctx, exe, args, timeout=3600, env=None):
@@ -93,6 +135,14 @@ def _run(ctx, exe, args, timeout=3600, env=None):
 def run(ctx):
     saved = vlib.go_build, vlib.run_driver
     vlib.go_build, vlib.run_driver = _build, _run
+    # the test binary is built (or found in the cache) while the Coq side is being checked
+    def bg():
+        try:
+            _BG["result"] = _build_real(ctx)
+        except Exception as e:
+            _BG["result"] = (None, "build failed: %r" % e)
+    _BG["thread"] = threading.Thread(target=bg)
+    _BG["thread"].start()
     try:
         return vlib.standard_flow(ctx, CFG)
     finally:
